@@ -38,6 +38,7 @@ func runC01(c *Ctx) {
 	c.rule("R1", "acquisition is one exclusive create: TryLock returns nil only on the nil side of afero.Fs.Mkdir(lockPath) through l.fs.vfs; no MkDir/MkDirAll/MkdirAll on the lock path; Lock returns nil only where TryLock did and waits/retries only on ErrLocked", 4)
 	c.rule("R2", "in a function retried by retry.Do, after a removal of the lock path returned nil no path returns a non-nil error (the removal must not be re-run)", 2)
 	c.rule("R3", "stale take-over: between the staleness verdict and the removal of the lock path there is an atomic claim (Rename/Move of the lock path to a private name)", 1)
+	c.rule("R7", "the staleness verdict that licenses a take-over reads the files found by a plain listing of the lock directory (never a pattern search over the lock path, never a name computed from the observer's id)", 1)
 	c.rule("R6", "the staleness verdict that licenses a take-over counts a heartbeat file it cannot read as a sign of life", 1)
 	c.rule("R5", "inside the lock implementation only Unlock removes lockPath() and only ReleaseIfStale calls Unlock: acquire paths never release", 2)
 	c.rule("R4", "lockPath() depends only on the lock's directory, prefix and id; it is the path created by TryLock and the path removed by Unlock", 3)
@@ -146,9 +147,29 @@ func runC01(c *Ctx) {
 				wait = cl
 			}
 		})
-		isLockedCmp := func(v ssa.Value) bool {
+		isErrLocked := func(v ssa.Value) bool {
+			if u, ok := stripConv(v).(*ssa.UnOp); ok {
+				if g, ok := u.X.(*ssa.Global); ok && g.Name() == "ErrLocked" {
+					return true
+				}
+			}
+			return false
+		}
+		isLockedCmpOp := func(v ssa.Value, op token.Token) bool {
+			if cl, isCall := v.(*ssa.Call); isCall && op == token.EQL {
+				// errors.Is(err, ErrLocked) / commonerrors.Any(err, ErrLocked)
+				n := calleeFull(&cl.Call)
+				if (n == "errors.Is" || strings.HasSuffix(n, "commonerrors.Any")) && len(cl.Call.Args) == 2 && sameValue(cl.Call.Args[0], tryCall) {
+					if isErrLocked(cl.Call.Args[1]) {
+						return true
+					}
+					els := variadicElems(cl.Call.Args[1])
+					return len(els) == 1 && isErrLocked(els[0])
+				}
+				return false
+			}
 			b, ok := v.(*ssa.BinOp)
-			if !ok || b.Op != token.EQL {
+			if !ok || b.Op != op {
 				return false
 			}
 			for _, pair := range [][2]ssa.Value{{b.X, b.Y}, {b.Y, b.X}} {
@@ -162,7 +183,8 @@ func runC01(c *Ctx) {
 			}
 			return false
 		}
-		good := wait != nil && onBoolSide(wait, true, isLockedCmp)
+		good := wait != nil && (onBoolSide(wait, true, func(v ssa.Value) bool { return isLockedCmpOp(v, token.EQL) }) ||
+			onBoolSide(wait, false, func(v ssa.Value) bool { return isLockedCmpOp(v, token.NEQ) }))
 		// every back edge from the non-nil side goes through that comparison: no other path from tryCall's non-nil side reaches the loop head
 		if good {
 			esc := pathAvoiding(tryCall, func(in ssa.Instruction) bool { return in == ssa.Instruction(wait) || isReturn(in) }, func(in ssa.Instruction) bool {
@@ -344,6 +366,31 @@ func runC01(c *Ctx) {
 		c.check(okU, "R6", fname(isStaleM)+"/unreadable-is-alive", posU, "a heartbeat file that cannot be examined never licenses a take-over", whyU)
 	} else {
 		c.violate("R6", "filesystem.(*RemoteLockFile).IsStale/unreadable-is-alive", "", "IsStale / isStale not found")
+	}
+
+	// ---- R7 ---------------------------------------------------------------
+	// … and what it reads are the files present in the lock directory, found by a plain listing (shared with C17/S6): a search
+	// by pattern reads the lock path — built from the caller's id and directory — as a pattern; an id such as "job[1]" then
+	// matches nothing, the verdict falls back on the age of the directory and a live lock is taken over.
+	if isStaleM := c.fnOpt(fsPkgRel, "(*RemoteLockFile).IsStale"); isStaleM != nil {
+		comb := c.fnOpt(fsPkgRel, "areHeartBeatFilesAllStale")
+		if comb != nil {
+			called := false
+			allInstrs(isStaleM, func(in ssa.Instruction) {
+				if cl, ok := in.(*ssa.Call); ok && staticCallee(&cl.Call) == comb {
+					called = true
+				}
+			})
+			if !called {
+				comb = nil
+			}
+		}
+		if comb == nil {
+			comb = isStaleM
+		}
+		bad := c.c17JudgedPaths(isStaleM, comb)
+		c.check(bad == "", "R7", fname(isStaleM)+"/judges-what-is-there", c.pos(isStaleM.Pos()), "the verdict that licenses a take-over reads the files listed in the lock directory",
+			"the age read at "+bad+" is not that of a file found by a plain listing of the lock directory: a live lock can be judged by something else than its heartbeat file (the directory's own age, a file named after the observer) and taken over while it is held")
 	}
 
 	// ---- R4 ---------------------------------------------------------------
